@@ -19,19 +19,19 @@ import (
 
 // Node kinds.
 const (
-	KBase        = iota // struct embedding *BaseNode (retry via options), default fallback
-	KBaseFB             // struct embedding *BaseNode overriding ExecFallback
-	KPlain              // plain Node: no retry interface, no fallback
-	KPlainFB            // plain Node with its own ExecFallback (one attempt)
-	KPlainRetry         // plain Node with its own GetMaxRetries/GetWait, no fallback
-	KPlainRetryFB       // plain Node with both
-	KFnOptRes           // flyt.NewNode(options...) Result-style functions
-	KFnOptAny           // flyt.NewNode(options...) Any-style functions
-	KFnBldRes           // flyt.NewNode().With...() Result-style
-	KFnBldAny           // flyt.NewNode().With...() Any-style
-	KFnMixed            // options and builder, Result and Any mixed
-	KFlow               // a flyt.Flow (NodeSpec.Flow describes it)
-	KBatch              // a sequential two-item batch node (builder); item calls are recorded as phase "item"
+	KBase            = iota // struct embedding *BaseNode (retry via options), default fallback
+	KBaseFB                 // struct embedding *BaseNode overriding ExecFallback
+	KPlain                  // plain Node: no retry interface, no fallback
+	KPlainFB                // plain Node with its own ExecFallback (one attempt)
+	KPlainRetry             // plain Node with its own GetMaxRetries/GetWait, no fallback
+	KPlainRetryFB           // plain Node with both
+	KFnOptRes               // flyt.NewNode(options...) Result-style functions
+	KFnOptAny               // flyt.NewNode(options...) Any-style functions
+	KFnBldRes               // flyt.NewNode().With...() Result-style
+	KFnBldAny               // flyt.NewNode().With...() Any-style
+	KFnMixed                // options and builder, Result and Any mixed
+	KFlow                   // a flyt.Flow (NodeSpec.Flow describes it)
+	KBatch                  // a sequential two-item batch node (builder); item calls are recorded as phase "item"
 	NumScriptedKinds = KFlow
 )
 
@@ -49,6 +49,9 @@ const (
 	// ECtxLike is used explicitly (never drawn by the generators): the callback's error wraps the sentinel
 	// AND a context error, although the run's own context is alive (e.g. a per-attempt timeout).
 	ECtxLike = NumErrKinds
+	// ECtxAware: like ESentinel, but when the run's own context is already done at that moment the returned error
+	// also wraps ctx.Err() (a callback that notices the cancellation and reports it as its failure).
+	ECtxAware = NumErrKinds + 1
 )
 
 // CustomErr is a pointer-receiver error type carrying a payload.
@@ -85,6 +88,8 @@ type NodeSpec struct {
 	N       int       `json:"n"`                // configured retry budget (ignored by kinds without retry interface)
 	HasFB   bool      `json:"has_fb,omitempty"` // fallback installed (only for kinds that can)
 	ErrKind int       `json:"err_kind,omitempty"`
+	WaitMs  int       `json:"wait_ms,omitempty"` // retry wait (kinds with retry settings)
+	Conc    int       `json:"conc,omitempty"`   // > 0: a batch concurrency (and stop-on-error) is configured on this NON-batch node: must change nothing
 	Visits  []Visit   `json:"visits,omitempty"` // script per visit; beyond the script the node succeeds at once and returns EndAction
 	Flow    *FlowSpec `json:"flow,omitempty"`
 }
@@ -124,12 +129,12 @@ type Event struct {
 	Phase   string `json:"phase"` // prep | exec | fallback | post
 	Attempt int    `json:"attempt,omitempty"`
 	// argument checks made inside the callback against what the node itself produced
-	StoreOK bool `json:"store_ok"`          // prep/post: the store is the one passed to Run
-	PrepOK  bool `json:"prep_ok"`           // exec/fallback/post: received exactly the value prep returned in this visit
-	ExecOK  bool `json:"exec_ok,omitempty"` // post: received exactly the value the successful attempt / fallback produced
-	ErrOK   bool `json:"err_ok,omitempty"`  // fallback: received error matches the last attempt's error
-	ErrOld  bool `json:"err_old,omitempty"` // fallback: received error matches an earlier attempt's error
-	CtxDone bool `json:"ctx_done,omitempty"`
+	StoreOK bool   `json:"store_ok"`          // prep/post: the store is the one passed to Run
+	PrepOK  bool   `json:"prep_ok"`           // exec/fallback/post: received exactly the value prep returned in this visit
+	ExecOK  bool   `json:"exec_ok,omitempty"` // post: received exactly the value the successful attempt / fallback produced
+	ErrOK   bool   `json:"err_ok,omitempty"`  // fallback: received error matches the last attempt's error
+	ErrOld  bool   `json:"err_old,omitempty"` // fallback: received error matches an earlier attempt's error
+	CtxDone bool   `json:"ctx_done,omitempty"`
 	Ret     string `json:"ret,omitempty"` // id of the error this callback returned ("" = it succeeded)
 	Note    string `json:"note,omitempty"`
 }
@@ -138,18 +143,18 @@ func (e Event) Key() string { return fmt.Sprintf("%d.%d.%s.%d", e.Node, e.Visit,
 
 // Outcome of one run.
 type Outcome struct {
-	Action  string `json:"action"`
-	ErrNil  bool   `json:"err_nil"`
-	ErrText string `json:"err_text,omitempty"`
-	ErrID   string `json:"err_id,omitempty"` // id of the scripted error the returned error matches ("" if none, "ctx" if it matches ctx.Err())
-	Panic   string `json:"panic,omitempty"`
-	Events  []Event `json:"events"`
-	Store   []string `json:"store_log"` // contents of the store's visit log after the run
-	CtxErr  string `json:"ctx_err,omitempty"`
-	Discard bool   `json:"discard,omitempty"`
-	Runaway bool   `json:"runaway,omitempty"` // the run exceeded RunawayLimit callbacks and was cut off
-	CancelSeq int  `json:"cancel_seq"` // seq of the callback that cancelled (-1 none)
-	err     error
+	Action    string   `json:"action"`
+	ErrNil    bool     `json:"err_nil"`
+	ErrText   string   `json:"err_text,omitempty"`
+	ErrID     string   `json:"err_id,omitempty"` // id of the scripted error the returned error matches ("" if none, "ctx" if it matches ctx.Err())
+	Panic     string   `json:"panic,omitempty"`
+	Events    []Event  `json:"events"`
+	Store     []string `json:"store_log"` // contents of the store's visit log after the run
+	CtxErr    string   `json:"ctx_err,omitempty"`
+	Discard   bool     `json:"discard,omitempty"`
+	Runaway   bool     `json:"runaway,omitempty"` // the run exceeded RunawayLimit callbacks and was cut off
+	CancelSeq int      `json:"cancel_seq"`        // seq of the callback that cancelled (-1 none)
+	err       error
 }
 
 // ---------------------------------------------------------------------------
@@ -161,22 +166,22 @@ type payload struct {
 
 // Exec is the runtime of one scenario (all runs).
 type Exec struct {
-	runIdx int
-	Sc     *Scenario
-	mu     sync.Mutex
-	events []Event
-	seq    int
-	store  *flyt.SharedStore
-	errs   map[string]error // scripted error id -> sentinel to match
-	cores  []*core
-	nodes  []flyt.Node
-	cancel func()
-	cancelSeq int
-	ctx    context.Context
-	zoo    []zoo.Named
+	runIdx      int
+	Sc          *Scenario
+	mu          sync.Mutex
+	events      []Event
+	seq         int
+	store       *flyt.SharedStore
+	errs        map[string]error // scripted error id -> sentinel to match
+	cores       []*core
+	nodes       []flyt.Node
+	cancel      func()
+	cancelSeq   int
+	ctx         context.Context
+	zoo         []zoo.Named
 	realTimeout bool
-	tripped atomic.Bool
-	runaway atomic.Bool
+	tripped     atomic.Bool
+	runaway     atomic.Bool
 }
 
 type core struct {
@@ -199,7 +204,7 @@ type fakeCtx struct {
 	err  atomic.Value
 }
 
-func newFakeCtx() *fakeCtx { return &fakeCtx{Context: context.Background(), done: make(chan struct{})} }
+func newFakeCtx() *fakeCtx               { return &fakeCtx{Context: context.Background(), done: make(chan struct{})} }
 func (c *fakeCtx) Done() <-chan struct{} { return c.done }
 func (c *fakeCtx) Err() error {
 	if e, ok := c.err.Load().(error); ok {
@@ -240,7 +245,7 @@ func (x *Exec) enter() (ordinal int) {
 	if inj.Kind == "real-timeout" && ordinal < inj.At && x.ctx.Err() != nil {
 		x.tripped.Store(true) // expired before the chosen position: case will be discarded
 	}
-	if (inj.Kind == "cancel" || inj.Kind == "deadline") && inj.At == ordinal && x.cancel != nil {
+	if (inj.Kind == "cancel" || inj.Kind == "deadline" || inj.Kind == "cancel-cause") && inj.At == ordinal && x.cancel != nil {
 		x.cancel()
 		x.cancelSeq = ordinal
 	}
@@ -261,6 +266,12 @@ func (x *Exec) mkErr(kind int, id string) error {
 	case EWrapped:
 		sentinel = errors.New("sentinel " + id)
 		ret = fmt.Errorf("callback context for %s: %w", id, sentinel)
+	case ECtxAware:
+		sentinel = errors.New("sentinel " + id)
+		ret = sentinel
+		if x.ctx != nil && x.ctx.Err() != nil {
+			ret = fmt.Errorf("aborted (%w): %w", x.ctx.Err(), sentinel)
+		}
 	case ECtxLike:
 		sentinel = errors.New("sentinel " + id)
 		if len(id)%2 == 0 {
@@ -440,7 +451,11 @@ func (c *core) item(ctx context.Context, v any) (any, error) {
 func (c *core) batchPost(ctx context.Context, shared *flyt.SharedStore, items, results []flyt.Result) (flyt.Action, error) {
 	c.x.enter()
 	vis := c.visit - 1
-	e := Event{Node: c.id, Visit: vis, Phase: "post", StoreOK: shared == c.x.store, PrepOK: len(items) == 2, ExecOK: len(results) == 2, CtxDone: ctx.Err() != nil}
+	wantItems := 2
+	if c.script().FirstOK == 0 {
+		wantItems = 0
+	}
+	e := Event{Node: c.id, Visit: vis, Phase: "post", StoreOK: shared == c.x.store, PrepOK: len(items) == wantItems, ExecOK: len(results) == wantItems, CtxDone: ctx.Err() != nil}
 	seq := c.x.record(e)
 	if shared != nil {
 		lg, _ := shared.Get("log")
@@ -463,8 +478,10 @@ type baseNode struct {
 	c *core
 }
 
-func (n *baseNode) Prep(ctx context.Context, s *flyt.SharedStore) (any, error) { return n.c.prep(ctx, s) }
-func (n *baseNode) Exec(ctx context.Context, p any) (any, error)              { return n.c.exec(ctx, p) }
+func (n *baseNode) Prep(ctx context.Context, s *flyt.SharedStore) (any, error) {
+	return n.c.prep(ctx, s)
+}
+func (n *baseNode) Exec(ctx context.Context, p any) (any, error) { return n.c.exec(ctx, p) }
 func (n *baseNode) Post(ctx context.Context, s *flyt.SharedStore, p, e any) (flyt.Action, error) {
 	return n.c.post(ctx, s, p, e)
 }
@@ -475,8 +492,10 @@ func (n *baseFBNode) ExecFallback(p any, err error) (any, error) { return n.c.fa
 
 type plainNode struct{ c *core }
 
-func (n *plainNode) Prep(ctx context.Context, s *flyt.SharedStore) (any, error) { return n.c.prep(ctx, s) }
-func (n *plainNode) Exec(ctx context.Context, p any) (any, error)              { return n.c.exec(ctx, p) }
+func (n *plainNode) Prep(ctx context.Context, s *flyt.SharedStore) (any, error) {
+	return n.c.prep(ctx, s)
+}
+func (n *plainNode) Exec(ctx context.Context, p any) (any, error) { return n.c.exec(ctx, p) }
 func (n *plainNode) Post(ctx context.Context, s *flyt.SharedStore, p, e any) (flyt.Action, error) {
 	return n.c.post(ctx, s, p, e)
 }
@@ -491,7 +510,7 @@ type plainRetryNode struct {
 }
 
 func (n *plainRetryNode) GetMaxRetries() int     { return n.n }
-func (n *plainRetryNode) GetWait() time.Duration { return 0 }
+func (n *plainRetryNode) GetWait() time.Duration { return time.Duration(n.c.spec.WaitMs) * time.Millisecond }
 
 type plainRetryFBNode struct{ plainRetryNode }
 
@@ -507,6 +526,12 @@ func (x *Exec) build(id int) flyt.Node {
 	var baseOpts []flyt.NodeOption
 	if spec.N != 1 || id%2 == 0 {
 		baseOpts = append(baseOpts, flyt.WithMaxRetries(spec.N))
+	}
+	if spec.WaitMs > 0 {
+		baseOpts = append(baseOpts, flyt.WithWait(time.Duration(spec.WaitMs)*time.Millisecond))
+	}
+	if spec.Conc > 0 && spec.Kind != KBatch {
+		baseOpts = append(baseOpts, flyt.WithBatchConcurrency(spec.Conc), flyt.WithBatchErrorHandling(spec.Conc%2 == 0))
 	}
 	prepR := func(ctx context.Context, s *flyt.SharedStore) (flyt.Result, error) {
 		v, err := c.prep(ctx, s)
@@ -564,19 +589,25 @@ func (x *Exec) build(id int) flyt.Node {
 		}
 		n = flyt.NewNode(opts...)
 	case KFnBldRes:
-		b := flyt.NewNode().WithPrepFunc(prepR).WithExecFunc(execR).WithPostFunc(postR).WithMaxRetries(spec.N)
+		b := flyt.NewNode().WithPrepFunc(prepR).WithExecFunc(execR).WithPostFunc(postR).WithMaxRetries(spec.N).WithWait(time.Duration(spec.WaitMs) * time.Millisecond)
 		if spec.HasFB {
 			b = b.WithExecFallbackFunc(c.fallback)
+		}
+		if spec.Conc > 0 {
+			b = b.WithBatchConcurrency(spec.Conc).WithBatchErrorHandling(spec.Conc%2 == 0)
 		}
 		n = b
 	case KFnBldAny:
-		b := flyt.NewNode().WithMaxRetries(spec.N).WithPrepFuncAny(c.prep).WithExecFuncAny(c.exec).WithPostFuncAny(c.post)
+		b := flyt.NewNode().WithMaxRetries(spec.N).WithWait(time.Duration(spec.WaitMs) * time.Millisecond).WithPrepFuncAny(c.prep).WithExecFuncAny(c.exec).WithPostFuncAny(c.post)
 		if spec.HasFB {
 			b = b.WithExecFallbackFunc(c.fallback)
 		}
+		if spec.Conc > 0 {
+			b = b.WithBatchErrorHandling(spec.Conc%2 == 0).WithBatchConcurrency(spec.Conc)
+		}
 		n = b
 	case KFnMixed:
-		opts := []any{flyt.WithPrepFuncAny(c.prep), flyt.WithMaxRetries(spec.N)}
+		opts := []any{flyt.WithPrepFuncAny(c.prep), flyt.WithMaxRetries(spec.N), flyt.WithWait(time.Duration(spec.WaitMs) * time.Millisecond)}
 		if spec.HasFB {
 			opts = append(opts, flyt.WithExecFallbackFunc(c.fallback))
 		}
@@ -587,6 +618,12 @@ func (x *Exec) build(id int) flyt.Node {
 				v, err := c.prep(ctx, s)
 				if err != nil {
 					return nil, err
+				}
+				if c.script().FirstOK == 0 { // a batch without items
+					if id%2 == 0 {
+						return nil, nil
+					}
+					return []flyt.Result{}, nil
 				}
 				return []flyt.Result{flyt.NewResult(v), flyt.NewResult(v)}, nil
 			}).
@@ -662,6 +699,13 @@ func (x *Exec) RunOnce() (out Outcome) {
 		if x.Sc.Inject.Kind == "pre-cancel" {
 			cf()
 		}
+	case "far-deadline": // a real deadline At milliseconds away that is NOT supposed to be reached; the run is discarded if it was
+		c, cf := context.WithTimeout(context.Background(), time.Duration(x.Sc.Inject.At)*time.Millisecond)
+		ctx, stop = c, cf
+	case "cancel-cause":
+		c, cf := context.WithCancelCause(context.Background())
+		ctx, x.cancel = c, func() { cf(errors.New("custom cancellation cause")) }
+		stop = x.cancel
 	case "deadline", "pre-deadline":
 		f := newFakeCtx()
 		ctx, x.cancel = f, f.trip
@@ -726,6 +770,9 @@ func (x *Exec) RunOnce() (out Outcome) {
 	}
 	if x.Sc.Inject.Kind == "real-timeout" && (x.tripped.Load() || x.cancelSeq < 0) {
 		out.Discard = true
+	}
+	if x.Sc.Inject.Kind == "far-deadline" && ctx.Err() != nil {
+		out.Discard = true // the machine was too slow: the deadline was reached after all
 	}
 	return out
 }
